@@ -77,6 +77,7 @@ func genCase(t *rapid.T) Case {
 		c.Version = rapid.SampledFrom([]string{"15.0", "9.6.24", "psql-wire é", " "}).Draw(t, "version")
 	}
 	c.Auth = rapid.IntRange(0, 3).Draw(t, "auth?") == 0
+	c.OptSeed = rapid.IntRange(0, 1000).Draw(t, "option-order")
 	n := rapid.SampledFrom([]int{1, 1, 2, 3, 4, 8}).Draw(t, "nconns")
 	for i := 0; i < n; i++ {
 		c.Conns = append(c.Conns, genConn(t, i, c.Auth))
